@@ -150,6 +150,11 @@ def run_unit(name, tier, seed):
         if rec:
             rec['diagnostic'] = d.get('rendered') or m
             fails.append(rec)
+    for l in g['ctx'].lints:
+        fails.append(dict(unit=name, message=l['message'], function=l['function'], primary_line=0, blame_line=0,
+                          blame_text='', primary_text='', span_labels=[], label=l['label'], tags=l['tags'], origin='syntactic',
+                          obligation='%s::%s::%s' % (name, l['function'].split('fn ')[-1], l['label']),
+                          diagnostic='syntactic obligation checked by the extractor (vx), not by Verus: ' + l['message']))
     # function breakdown
     funcs = []
     try:
